@@ -201,3 +201,320 @@ Proof.
     replace (e_sc e + S (length (entries e) - e_sc e - 2))%nat with (length (entries e) - 1)%nat by lia.
     reflexivity.
 Qed.
+
+(** * A solution [up; down] over a peering link *)
+Section Pair.
+Variable mac : N -> N -> N -> N -> N -> N -> list N.
+Variable t : Nw.topology.
+Hypothesis Hwt : Nw.wf_topo t = true.
+Variables ups cores downs : list (N * segment).
+Hypothesis HBu : Forall (beaconed mac t false) (segs_of ups).
+Hypothesis HBc : Forall (beaconed mac t true) (segs_of cores).
+Hypothesis HBd : Forall (beaconed mac t false) (segs_of downs).
+Notation segs := (insegs ups cores downs).
+Variables src dst : N.
+Variables e1 e2 : edge.
+Variables k1 k2 : nat.
+Hypothesis Hch : is_chain segs src dst [e1; e2].
+Hypothesis P1 : e_peer e1 = S k1.
+Hypothesis P2 : e_peer e2 = S k2.
+Hypothesis Ty1 : is_ty (e_seg e1) = Up.
+Hypothesis Ty2 : is_ty (e_seg e2) = Down.
+
+Notation s1 := (is_seg (e_seg e1)).
+Notation s2 := (is_seg (e_seg e2)).
+Notation h1 := (rev (peer_cons e1)).
+Notation h2 := (peer_cons e2).
+Definition pair_prov : Prov.prov := peer_prov (ts_of s1) (ts_of s2) h1 h2.
+Notation p := pair_prov.
+
+Lemma Dn1 : is_down e1 = false.
+Proof. unfold is_down. now rewrite Ty1. Qed.
+Lemma Dn2 : is_down e2 = true.
+Proof. unfold is_down. now rewrite Ty2. Qed.
+Lemma Eh1 : peer_hops e1 = h1.
+Proof. unfold peer_hops. now rewrite Dn1. Qed.
+Lemma Eh2 : peer_hops e2 = h2.
+Proof. unfold peer_hops. now rewrite Dn2. Qed.
+
+Lemma F12 : from_segs segs e1 /\ from_segs segs e2.
+Proof.
+  pose proof (chain_from_segs _ _ _ _ _ Hch) as Hf. inversion Hf as [|? ? F1 Hf']; subst.
+  inversion Hf' as [|? ? F2 _]; subst. now split.
+Qed.
+
+Lemma chain12 : e_src e1 = v_ia src /\ e_src e2 = e_dst e1 /\ e_dst e2 = v_ia dst.
+Proof.
+  unfold is_chain in Hch. cbn [chain] in Hch. destruct Hch as (_ & S1 & _ & _ & _ & S2 & _ & D2). auto.
+Qed.
+
+Lemma facts1 : beaconed mac t false s1 /\ edge_good e1 /\
+  exists pk, nth_error (ae_peers (edge_cut e1)) k1 = Some pk /\
+    e_src e1 = v_ia (last_ia s1) /\
+    e_dst e1 = v_peer (ae_ia (edge_cut e1)) (h_in (pe_hop pk)) (pe_ia pk) (pe_if pk).
+Proof.
+  destruct F12 as [F1 _].
+  destruct (peer_edge_facts mac t Hwt ups cores downs HBu HBc HBd e1 k1 F1 P1)
+    as (B & G & pk & Hpk & _ & _ & [(_ & S' & D)|(Ty & _)]); [|congruence].
+  split; [exact B|]. split; [exact G|]. exists pk. auto.
+Qed.
+
+Lemma facts2 : beaconed mac t false s2 /\ edge_good e2 /\
+  exists pk, nth_error (ae_peers (edge_cut e2)) k2 = Some pk /\
+    e_src e2 = v_rev (v_peer (ae_ia (edge_cut e2)) (h_in (pe_hop pk)) (pe_ia pk) (pe_if pk)) /\
+    e_dst e2 = v_ia (last_ia s2).
+Proof.
+  destruct F12 as [_ F2].
+  destruct (peer_edge_facts mac t Hwt ups cores downs HBu HBc HBd e2 k2 F2 P2)
+    as (B & G & pk & Hpk & _ & _ & [(Ty & _)|(_ & S' & D)]); [congruence|].
+  split; [exact B|]. split; [exact G|]. exists pk. auto.
+Qed.
+
+Lemma sc1 : (e_sc e1 < length (entries e1))%nat.
+Proof. destruct facts1 as (_ & [c [Hc _]] & _). apply nth_error_Some. congruence. Qed.
+Lemma sc2 : (e_sc e2 < length (entries e2))%nat.
+Proof. destruct facts2 as (_ & [c [Hc _]] & _). apply nth_error_Some. congruence. Qed.
+
+Lemma len1 : (1 <= length h1)%nat.
+Proof. rewrite rev_length, (peer_cons_length e1 sc1). pose proof sc1. lia. Qed.
+Lemma len2 : (1 <= length h2)%nat.
+Proof. rewrite (peer_cons_length e2 sc2). pose proof sc2. lia. Qed.
+
+Lemma last_h1 : last h1 Prov.dhop = peer_ph e1.
+Proof. now rewrite last_rev. Qed.
+Lemma hd_h2 : hd Prov.dhop h2 = peer_ph e2.
+Proof. reflexivity. Qed.
+
+(** the peering link between the two cut entries *)
+Lemma junction : exists a f,
+  Nw.find_as t (Prov.ph_ia (peer_ph e1)) = Some a /\
+  Nw.find_nif (Nw.a_ifs a) (Prov.ph_in (peer_ph e1)) = Some f /\
+  Nw.ni_nbr f = Prov.ph_ia (peer_ph e2) /\ Nw.ni_remote f = Prov.ph_in (peer_ph e2) /\
+  Nw.ni_lt f = R.Peer /\ Prov.ph_in (peer_ph e1) <> 0 /\ Prov.ph_in (peer_ph e2) <> 0.
+Proof.
+  destruct facts1 as (B1 & G1 & pk1 & Hp1 & _ & D1).
+  destruct facts2 as (B2 & G2 & pk2 & Hp2 & S2 & _).
+  destruct chain12 as (_ & Adj & _). rewrite S2, D1 in Adj.
+  unfold v_rev, v_peer in Adj. inversion Adj as [[A1 A2 A3 A4]].
+  destruct (peer_link mac t Hwt e1 B1 G1 k1 P1) as (q1 & a & f & Hq1 & In1 & Fa & Ff & Lt & Nb & Rm & Z1 & _).
+  destruct (peer_link mac t Hwt e2 B2 G2 k2 P2) as (q2 & _ & _ & Hq2 & In2 & _ & _ & _ & _ & _ & Z2 & _).
+  assert (q1 = pk1) by congruence. assert (q2 = pk2) by congruence. subst q1 q2.
+  exists a, f. rewrite In1, In2. change (Prov.ph_ia (peer_ph e2)) with (ae_ia (edge_cut e2)).
+  repeat split; try assumption; congruence.
+Qed.
+
+(** nonzero interfaces along the two slices *)
+Lemma nz1 i h h' : nth_error h1 i = Some h -> nth_error h1 (S i) = Some h' ->
+  Prov.ph_in h <> 0 /\ Prov.ph_eg h' <> 0.
+Proof.
+  intros Hi Hi'. destruct facts1 as (B1 & G1 & _).
+  destruct (rev_pair mac t Hwt e1 B1 G1 k1 P1 i h h' Hi Hi') as (_ & a & f & Fa & Ff & _ & Rm & _).
+  destruct (find_as_ia _ _ _ Fa) as [Ia _].
+  destruct (far t Hwt a _ f ltac:(now rewrite Ia) Ff) as (_ & _ & _ & _ & _ & _ & _ & Z1 & Z2).
+  split; [exact Z1|]. now rewrite <- Rm.
+Qed.
+
+Lemma nz2 i h h' : nth_error h2 i = Some h -> nth_error h2 (S i) = Some h' ->
+  Prov.ph_eg h <> 0 /\ Prov.ph_in h' <> 0.
+Proof.
+  intros Hi Hi'. destruct facts2 as (B2 & G2 & _).
+  destruct (cons_pair mac t Hwt e2 B2 G2 k2 P2 i h h' Hi Hi') as (_ & a & f & Fa & Ff & _ & Rm & _).
+  destruct (find_as_ia _ _ _ Fa) as [Ia _].
+  destruct (far t Hwt a _ f ltac:(now rewrite Ia) Ff) as (_ & _ & _ & _ & _ & _ & _ & Z1 & Z2).
+  split; [exact Z1|]. now rewrite <- Rm.
+Qed.
+
+(** * Interfaces *)
+Lemma proj1 : map proj_hop h1 = edge_hops e1.
+Proof. rewrite <- Eh1. apply peer_proj. apply facts1. Qed.
+Lemma proj2 : map proj_hop h2 = edge_hops e2.
+Proof. rewrite <- Eh2. apply peer_proj. apply facts2. Qed.
+
+Theorem pair_interfaces : Prov.interfaces p = p_ifs (path_of [e1; e2]).
+Proof.
+  unfold pair_prov. rewrite interfaces_peer; [|exact len1|exact len2].
+  cbn [path_of p_ifs]. unfold sol_ifs. cbn [flat_map]. rewrite app_nil_r.
+  destruct facts1 as (B1 & G1 & _). destruct facts2 as (B2 & G2 & _).
+  destruct junction as (_ & _ & _ & _ & _ & _ & _ & Z1 & Z2).
+  rewrite (trav_ifs_traversed e1 G1 ltac:(apply B1)), (trav_ifs_traversed e2 G2 ltac:(apply B2)).
+  rewrite P1, P2, Dn1, Dn2. cbn [Nat.eqb negb]. rewrite <- proj1, <- proj2.
+  rewrite (trav_peer_up _ (proj_hop Prov.dhop)) by (destruct h1 eqn:E; [pose proof len1 as L; rewrite E in L; cbn in L; lia|discriminate]).
+  rewrite (trav_peer_down _ (proj_hop Prov.dhop)) by (unfold peer_cons; discriminate).
+  rewrite last_map', hd_map', last_h1, hd_h2. cbn [proj_hop fst snd h_in].
+  rewrite !nz_ne by assumption.
+  pose proof (pairs_traversed1 (peer_sl1 (ts_of s1) h1) h1 (fun i h h' Hi Hi' => nz1 i h h' Hi Hi') len1) as Q1.
+  pose proof (pairs_traversed1 (peer_sl2 (ts_of s2) h2) h2 (fun i h h' Hi Hi' => nz2 i h h' Hi Hi') len2) as Q2.
+  change (Prov.sl_consdir (peer_sl1 (ts_of s1) h1)) with false in Q1.
+  change (Prov.sl_consdir (peer_sl2 (ts_of s2) h2)) with true in Q2.
+  rewrite <- Q1, <- Q2, <- !app_assoc. reflexivity.
+Qed.
+
+(** * First and last hop *)
+Lemma cons_last_ia e : (e_sc e < length (entries e))%nat ->
+  Prov.ph_ia (last (peer_cons e) Prov.dhop) = last_ia (is_seg (e_seg e)).
+Proof.
+  intros L. assert (Ne : sg_entries (is_seg (e_seg e)) <> []).
+  { intros X. unfold entries in L. rewrite X in L. cbn in L. lia. }
+  rewrite (last_ia_nth' _ Ne), (peer_cons_last e L). fold (entries e).
+  destruct (Nat.eqb_spec (S (e_sc e)) (length (entries e))) as [Q|Q].
+  - unfold peer_ph. cbn. unfold edge_cut. do 2 f_equal. lia.
+  - reflexivity.
+Qed.
+
+Lemma hop_first : Prov.hop p 0 = last (peer_cons e1) Prov.dhop.
+Proof.
+  unfold pair_prov. rewrite hop1 by exact len1. rewrite <- hd_rev. destruct h1; reflexivity.
+Qed.
+
+Lemma hop_last : Prov.hop p (Prov.nhops p - 1) = last (peer_cons e2) Prov.dhop.
+Proof.
+  unfold pair_prov. rewrite pp_n. pose proof len2 as L2.
+  replace (length h1 + length h2 - 1)%nat with (length h1 + (length h2 - 1))%nat by lia.
+  rewrite hop2. apply nth_last. unfold peer_cons. discriminate.
+Qed.
+
+Lemma pair_ia_first : Prov.ia p 0 = src.
+Proof.
+  unfold Prov.ia. rewrite hop_first, (cons_last_ia e1 sc1).
+  destruct facts1 as (_ & _ & pk & _ & S1 & _). destruct chain12 as (S1' & _).
+  apply v_ia_inj. now rewrite <- S1.
+Qed.
+
+Lemma pair_ia_last : Prov.ia p (Prov.nhops p - 1) = dst.
+Proof.
+  unfold Prov.ia. rewrite hop_last, (cons_last_ia e2 sc2).
+  destruct facts2 as (_ & _ & pk & _ & _ & D2). destruct chain12 as (_ & _ & D2').
+  apply v_ia_inj. now rewrite <- D2.
+Qed.
+
+Lemma pair_endpoints pp : hosts_ok t src dst pp -> Prov.endpoints_ok t p pp = true.
+Proof.
+  intros (S' & D & Hs & a & d & Fa & Dt). unfold Prov.endpoints_ok.
+  rewrite pair_ia_first, pair_ia_last, S', D, !N.eqb_refl, Hs, Fa, Dt. reflexivity.
+Qed.
+
+Lemma pair_unexpired now : path_unexpired now (path_of [e1; e2]) -> Prov.all_unexpired now p = true.
+Proof.
+  intros U. unfold path_unexpired in U. cbn [path_of p_slices map] in U.
+  inversion U as [|? ? U1 U']; subst. inversion U' as [|? ? U2 _]; subst.
+  cbn [edge_slice Cb.sl_hops Cb.sl_info edge_info Cb.i_ts] in U1, U2.
+  rewrite <- proj1 in U1. rewrite <- proj2 in U2. rewrite Forall_forall in U1, U2.
+  unfold Prov.all_unexpired. apply forallb_forall. intros k Hk. apply in_seq in Hk.
+  unfold pair_prov in *. rewrite pp_n in Hk. unfold Prov.hop_unexpired. apply negb_true_iff.
+  destruct (Nat.lt_ge_cases k (length h1)) as [K|K].
+  - rewrite hdr1, hop1 by exact K. apply (U1 (proj_hop (nth k h1 Prov.dhop))). apply in_map. now apply nth_In.
+  - replace k with (length h1 + (k - length h1))%nat by lia. rewrite hdr2, hop2 by lia.
+    apply (U2 (proj_hop (nth (k - length h1) h2 Prov.dhop))). apply in_map. apply nth_In. lia.
+Qed.
+
+(** * The packet *)
+Lemma sid0 : Prov.sid p 0 0 false = Prov.ph_beta (last (peer_cons e1) Prov.dhop).
+Proof.
+  unfold Prov.sid. rewrite <- hop_first. unfold Prov.beta. f_equal.
+Qed.
+
+Lemma sid1 : Prov.sid p 1 0 false = Prov.ph_beta (peer_ph e2).
+Proof.
+  unfold Prov.sid, Prov.beta. unfold pair_prov. rewrite pp_lens.
+  change (nth 1 (Prov.pv_segs (peer_prov (ts_of s1) (ts_of s2) h1 h2)) Prov.dseg)
+    with (hdr_of (peer_sl2 (ts_of s2) h2)).
+  unfold Prov.clampi. cbn [hdr_of Prov.sg_consdir peer_sl2 Prov.sl_consdir orb Prov.seg_start firstn fold_right].
+  replace (length h1 + 0 + Nat.min (0 - (length h1 + 0)) (Prov.sg_len (hdr_of (peer_sl2 (ts_of s2) h2)) - 1))%nat
+    with (length h1 + 0)%nat by lia.
+  now rewrite hop2.
+Qed.
+
+Lemma beta1 : calc_beta e1 = Prov.ph_beta (last (peer_cons e1) Prov.dhop).
+Proof.
+  pose proof sc1 as L. rewrite (peer_cons_last e1 L).
+  assert (Bi : beta_index e1 =
+               if Nat.eqb (S (e_sc e1)) (length (entries e1)) then S (e_sc e1) else (length (entries e1) - 1)%nat).
+  { unfold beta_index. rewrite Dn1, P1. fold (entries e1).
+    change (negb (Nat.eqb (S k1) 0)) with true. rewrite andb_true_r.
+    destruct (Nat.eqb_spec (S (e_sc e1)) (length (entries e1))) as [Q|Q];
+      destruct (Nat.eqb_spec (length (entries e1) - 1) (e_sc e1)) as [Q'|Q']; lia. }
+  rewrite calc_beta_at by (rewrite Bi; destruct (Nat.eqb (S (e_sc e1)) (length (entries e1))); lia).
+  rewrite Bi. destruct (Nat.eqb (S (e_sc e1)) (length (entries e1))); reflexivity.
+Qed.
+
+Lemma beta2 : calc_beta e2 = Prov.ph_beta (peer_ph e2).
+Proof.
+  pose proof sc2 as L.
+  assert (Bi : beta_index e2 = S (e_sc e2)) by (unfold beta_index; rewrite Dn2, P2; lia).
+  rewrite calc_beta_at by (rewrite Bi; lia). rewrite Bi. reflexivity.
+Qed.
+
+Lemma pair_infos : Prov.rinfos p 0 false = map pkt_info [edge_slice e1; edge_slice e2].
+Proof.
+  unfold Prov.rinfos.
+  change (length (Prov.pv_segs p)) with 2%nat. cbn [seq map]. unfold Prov.rinfo. cbv zeta.
+  rewrite sid0, sid1, <- beta1, <- beta2.
+  unfold pkt_info, edge_slice, edge_info. cbn [Cb.sl_info Cb.i_peer Cb.i_consdir Cb.i_segid Cb.i_ts].
+  rewrite P1, P2, Dn1, Dn2. reflexivity.
+Qed.
+
+Lemma pair_hops : map Prov.rhop (Prov.pv_hops p) =
+  flat_map (fun sl => map pkt_hop (Cb.sl_hops sl)) [edge_slice e1; edge_slice e2].
+Proof.
+  unfold pair_prov. rewrite pp_hops, map_app. cbn [flat_map edge_slice Cb.sl_hops].
+  rewrite <- proj1, <- proj2, !map_map, app_nil_r. reflexivity.
+Qed.
+
+Lemma pair_len j :
+  Prov.len_at p j = N.of_nat (length (Cb.sl_hops (nth j [edge_slice e1; edge_slice e2] dflt_slice))).
+Proof.
+  unfold Prov.len_at, pair_prov. rewrite pp_lens. f_equal.
+  destruct j as [|[|j]]; cbn [nth edge_slice Cb.sl_hops].
+  - now rewrite <- proj1, map_length.
+  - now rewrite <- proj2, map_length.
+  - destruct j; reflexivity.
+Qed.
+
+Theorem pair_render pp : Prov.render p pp 0 false = pkt_of_path (path_of [e1; e2]) pp.
+Proof.
+  unfold Prov.render, pkt_of_path. cbv zeta. cbn [path_of p_slices map].
+  rewrite !pair_len, pair_infos, pair_hops. cbn [map].
+  rewrite seg_idx_00; [reflexivity|].
+  intros x Hx. unfold pair_prov in Hx. rewrite pp_lens in Hx. cbn in Hx. inversion Hx. exact len1.
+Qed.
+
+(** * Well-formedness *)
+Hypothesis H64' : (length (path_ias (path_of [e1; e2])) <= 64)%nat.
+Hypothesis Hn3 : no_as_thrice (p_ifs (path_of [e1; e2])).
+Hypothesis Hsd : src <> dst.
+
+Lemma pair_tot : (length h1 + length h2 <= 64)%nat.
+Proof.
+  unfold path_ias in H64'. cbn [path_of p_slices map flat_map edge_slice Cb.sl_hops] in H64'.
+  rewrite <- proj1, <- proj2, app_nil_r, map_length, app_length, !map_length in H64'. exact H64'.
+Qed.
+
+Lemma pair_htot : total (Prov.lens p) = Prov.nhops p.
+Proof. unfold pair_prov. rewrite pp_n, pp_lens. cbn. lia. Qed.
+
+Lemma pair_cross k : (S k < Prov.nhops p)%nat -> Prov.crosses p k = true.
+Proof.
+  unfold pair_prov. rewrite pp_n. intros H. destruct (Nat.lt_ge_cases k (length h1)) as [K|K].
+  - now apply crosses1.
+  - replace k with (length h1 + (k - length h1))%nat by lia. apply crosses2. lia.
+Qed.
+
+Theorem pair_wf_prov : Prov.wf_prov_b (macq_of mac) t p = true.
+Proof.
+  destruct facts1 as (B1 & G1 & _). destruct facts2 as (B2 & G2 & _).
+  assert (N3 : no_as_thrice (Prov.interfaces p)) by (rewrite pair_interfaces; exact Hn3).
+  assert (D : Prov.ia p 0 <> Prov.ia p (Prov.nhops p - 1)) by (rewrite pair_ia_first, pair_ia_last; exact Hsd).
+  unfold pair_prov. apply wf_peer_prov. apply Build_wf_peer.
+  - exact len1.
+  - exact len2.
+  - exact pair_tot.
+  - intros h Hin. apply (peer_hops_good mac t Hwt e1 B1 G1 k1 P1); [reflexivity|now rewrite Eh1].
+  - intros h Hin. apply (peer_hops_good mac t Hwt e2 B2 G2 k2 P2); [reflexivity|now rewrite Eh2].
+  - intros i h h' Hi Hi'. rewrite rev_length. exact (rev_pair mac t Hwt e1 B1 G1 k1 P1 i h h' Hi Hi').
+  - intros i h h' Hi Hi'. exact (cons_pair mac t Hwt e2 B2 G2 k2 P2 i h h' Hi Hi').
+  - rewrite last_h1, hd_h2. destruct junction as (a & f & Fa & Ff & Nb & Rm & Lt & _). exists a, f. auto.
+  - intros k K1 K2. apply (xsrc_free p pair_htot pair_cross N3 k K1 K2). congruence.
+  - intros k K. apply (xdst_free p pair_htot pair_cross N3 k K D).
+Qed.
+
+End Pair.
